@@ -8,7 +8,7 @@ from impl import EntSpec
 
 TABLES = []
 LAKE_TARGETS = ["Moclo.Props.C07"]
-THEOREMS = []
+THEOREMS = ["Moclo.C07." + t for t in ["inputs_unchanged", "restore_undoes_deref", "withRecs_self", "second_call_same", "retry_sees_original_vector"]]
 RULE = ("sequences of 1-3 assemble calls over shared record objects, with and without literature citations: "
         "successful, with unused modules (warning), invalid vector, duplicate at map building, missing module after "
         "j consumed modules, a module that is invalid, an arbitrary exception raised by the j-th fragment extraction "
@@ -51,7 +51,7 @@ def outcome(reply):
 def perturb(rng, case, info):
     """turn a well-formed assembly into one of the failing / warning shapes"""
     mode = rng.choice(["ok", "ok", "unused", "invalid-vector", "duplicate", "rc-duplicate", "missing", "invalid-module",
-                       "fault", "fault-vector", "same-object"])
+                       "fault", "fault-vector", "same-object", "bad-citation"])
     mods = case["mods"]
     enz = asm.enzyme(case["enz"])
     name = case["enz"]
@@ -84,6 +84,15 @@ def perturb(rng, case, info):
         case["vector"] = dict(case["vector"], faulty=True)
     elif mode == "same-object":
         mods.append(rng.choice(mods))
+    elif mode == "bad-citation":
+        # a citation that does not index the reference list: dereferencing itself fails, after the
+        # records listed before it have already been rewritten
+        tgt = rng.choice(mods + [case["vector"]])
+        n = len(tgt["word"])
+        tgt["feats"] = list(tgt["feats"]) + [[1, "u77", ["i{}".format(len(tgt["refs"]) + 1 + rng.randrange(3))],
+                                              [[0, max(1, n // 2), 1]]]]
+        if tgt is case["vector"]:
+            case["vector"] = tgt
     rng.shuffle(mods)
     case["mode"] = mode
     return case
@@ -169,7 +178,7 @@ def run(ctx):
         fixed["vector"] = copy.deepcopy(case["vector"])
         fixed["mods"] = copy.deepcopy(case["mods"])
         case = perturb(rng, case, info)
-        if case["mode"] in ("invalid-vector", "fault-vector"):
+        if case["mode"] in ("invalid-vector", "fault-vector", "bad-citation"):
             fixed = None
         case["fixed"] = fixed
         case["calls"] = rng.choice([2, 2, 3])
